@@ -652,6 +652,19 @@ def free_oracles(run):
                         "why": "re-based on the clock (prev=%d) although the pending fire time %s was not more than the threshold (%d) late: drift" % (c["prev"], last, thr)})
         counts["on_time_calls"] += len(on_time)
         counts["misfire_rebases"] += rebases
+        # C04: when the trigger reports that there is no further fire time (any error) the job leaves the registry: the loop never
+        # asks this trigger again (a later call inside a ScheduleJob / ResumeJob invocation on the key is that call's own)
+        failed = [c for c in trig if "err" in c and not any(a["op"] in ("S", "Ss", "R") and a["mono0"] - TOL <= c["mono"] <= a["mono"] + TOL for a in kapi)]
+        if failed:
+            counts["trigger_failures_in_loop"] = counts.get("trigger_failures_in_loop", 0) + 1
+            later = [c for c in trig if c["mono"] > failed[0]["mono"] and c["seq"] > failed[0]["seq"]
+                     and not any(a["op"] in ("S", "Ss", "R") and a["mono0"] - TOL <= c["mono"] <= a["mono"] + TOL for a in kapi)]
+            resched = [a for a in kapi if a["op"] in ("S", "Ss", "R") and a["err"] == "ok" and a["mono"] >= failed[0]["mono"]]
+            if later and not resched and not any(f.get("key") == key for f in f04):
+                f04.append({"key": key, "failing_call": failed[0], "later_call": later[0], "later_calls": len(later),
+                            "why": "the job's trigger failed (%s) when the loop asked it for the next fire time, yet the loop asked it again %d more "
+                                   "times (first %d ns later) without any ScheduleJob / ResumeJob: the job did not leave the registry" % (
+                                       failed[0]["err"], len(later), later[0]["mono"] - failed[0]["mono"])})
         # C03: one fire time is consumed (handed back to its trigger as the scheduled time) at most once
         seen_prev = {}
         for c in on_time:
